@@ -65,10 +65,48 @@ def grep_forbidden() -> list[str]:
 	return hits
 
 
-def regenerate_gen() -> dict:
-	"""Run the translator; returns its report (functions translated, untranslatable constructs)."""
-	from pyx2lean import regenerate
-	return regenerate(REPO, LEAN / 'GambitV' / 'Gen')
+def regenerate_gen(stub=frozenset()) -> dict:
+	"""Run both translators (Cython subset: pyx2lean; pure-Python logic cores: py2lean); returns the merged report
+	(functions translated, untranslatable constructs, and for each untranslatable construct the generated module it belongs to)."""
+	from pyx2lean import regenerate as regen_pyx
+	from py2lean import regenerate as regen_py
+	rep = regen_pyx(REPO, LEAN / 'GambitV' / 'Gen')
+	by_module = {}
+	for u in rep.get('untranslatable', []):
+		mod = 'GambitV.Gen.Metric' if u.startswith('metric.pyx') else 'GambitV.Gen.Kmers' if u.startswith('kmers.pyx') else '*'
+		by_module.setdefault(mod, []).append(u)
+	py = regen_py(REPO, LEAN / 'GambitV' / 'Gen', stub)
+	for mod, us in py.get('untranslatable_by_module', {}).items():
+		by_module.setdefault('GambitV.Gen.' + mod, []).extend(us)
+	rep['untranslatable'] = list(rep.get('untranslatable', [])) + list(py.get('untranslatable', []))
+	rep['functions'] = list(rep.get('functions', [])) + list(py.get('functions', []))
+	rep['py'] = {k: v for k, v in py.items() if k in ('modules', 'ast_sha1')}
+	rep['untranslatable_by_module'] = by_module
+	return rep
+
+
+def lean_imports() -> dict[str, set[str]]:
+	"""module -> modules it imports directly (project modules only), read from the `import` lines of every .lean file"""
+	out = {}
+	for p in LEAN.rglob('*.lean'):
+		if '.lake' in p.parts:
+			continue
+		mod = '.'.join(p.relative_to(LEAN).with_suffix('').parts)
+		out[mod] = set(re.findall(r'^import\s+((?:GambitV|Driver)\.\S+)', p.read_text(), flags=re.M))
+	return out
+
+
+def import_closure(mods, imports=None) -> set[str]:
+	"""the given modules and everything they import, transitively"""
+	imports = imports or lean_imports()
+	seen, todo = set(), list(mods)
+	while todo:
+		m = todo.pop()
+		if m in seen:
+			continue
+		seen.add(m)
+		todo += list(imports.get(m, ()))
+	return seen
 
 
 def lake_build(targets=('GambitV', 'driver')) -> tuple[bool, str, list[str]]:
